@@ -464,6 +464,10 @@ TRIAGE: list[tuple[str, str, str, str]] = [
      "--reuse-model makes a duplicate of a nullable root model inherit from the first one and writes the base as the reference's type hint: `class Tag(Optional[Item])` (every name is bound; the base is not a class)"),
     (r"^RuntimeError: no validator found for <class 'collections\.abc\.", "other_property", "C14 (representation-only options) / C13",
      "--use-generic-container-types with --use-standard-collections writes collections.abc.Sequence/Mapping/Set, which pydantic v1 (here: pydantic.v1 on Python 3.12) cannot validate (spelling option, not name binding)"),
+    (r"^RuntimeError: no validator found for <class '(pathlib|fractions)\.", "other_property", "C03 (module not importable) / C14 (--collapse-root-models)",
+     "pydantic v1 output: a class with a member of a customTypePath type gets `class Config: arbitrary_types_allowed = True`, but when --collapse-root-models moves the "
+     "type from a root model into the member of another class that class does not get it: pydantic v1 finds no validator when the class is created "
+     "(every name is bound; model configuration, not name binding). Met by the root-model chain family"),
     (r"^ValueError: On field \".*\" the following field constraints are set but not enforced", "other_property", "C04 / C14 (known finding: unenforced_field_constraints)",
      "pydantic v1 refuses a constraint the annotated type cannot enforce (constraint routing, not name binding)"),
 ]
